@@ -6,7 +6,7 @@ ROOT = os.path.dirname(os.path.dirname(os.path.abspath(__file__)))
 
 # id -> (level text, level note, technique)
 CHECKS = {
- "C01": ("generated diagrams x (h,t) x reduced x ring x crossing order x thread count; rank and torsion per degree / bidegree compared with an independent cube-of-resolutions complex whose homology is computed by the harness's own modular / p-adic elimination",
+ "C01": ("generated diagrams x (h,t) x reduced x ring x crossing order x thread count; rank and torsion per degree / bidegree compared with an independent cube-of-resolutions complex whose homology is computed by the harness's own modular / p-adic elimination; a fourth route composes two separately built tangle complexes with TngComplex::connect",
          "sampled diagrams up to the oracle's size cap (2^n states); torsion compared at primes <= 31 and at the prime factors the library reports; elimination order sampled through crossing permutations, pool sizes and the engine's own hash order",
          "property-based testing (proptest): differential against a reference model (own cube of resolutions + own linear algebra), shrinking to replay file; thorough tier also runs the quick workload on a build with the code base's debug assertions enabled"),
  "C02": ("generated base diagram + sequence of isotopy moves / relabelings / orientation reversal / mirror; bigraded tables compared (mirror: transformed)",
@@ -21,7 +21,7 @@ CHECKS = {
  "C05": ("d.d = 0 with reference products, degree +1, q-homogeneity with deg h = -2, deg t = -4, and specialise-then-homology == direct homology, over Z, Q, F2, F3, Z[H], Z[T], Z[H,T], Q[H], F2[H]",
          "entries are read through the public matrix API and multiplied by the harness; homology comparison by the harness's own elimination",
          "property-based testing (proptest): invariants over generated (link, ring, parameters) + differential on specialisation"),
- "C06": ("canonical cycles are degree-0 cycles, non-torsion for h != 0, Lee/Bar-Natan rank 2^components, ss equal across generated diagrams of a knot and reduced/unreduced, negated by mirror, crossing-change inequality at every crossing",
+ "C06": ("canonical cycles are degree-0 cycles, non-torsion for h != 0, Lee/Bar-Natan rank 2^components, ss equal across generated diagrams of a knot and reduced/unreduced, negated by mirror, crossing-change inequality at every crossing; knot diagrams with a crossing smoothed along the orientation are included",
          "diagram independence sampled through move sequences; crossing changes by the harness's own PD rewriting",
          "property-based testing (proptest): invariants + metamorphic relations over generated diagrams, moves and crossing changes"),
  "C07": ("complexes built by construction (planted ranks and torsion, random unimodular changes of basis) over 11 rings; rank/torsion compared with the planted answer and with the harness's own elimination; generators are cycles, boundaries map to 0 mod torsion, coordinates of generators are the standard basis",
@@ -36,16 +36,16 @@ CHECKS = {
  "C10": ("generated integer / Gaussian / Eisenstein matrices of any shape and rank (HNF) and full row rank (LLL), huge entries; H = P A, P P^-1 = I, echelon / normalised pivots / reduced above; B = P A, P unimodular, size-reduced and Lovasz by exact rational Gram-Schmidt",
          "exact Gram-Schmidt in BigRational in the harness; bounds N(mu) <= 1/2 (Z[i]), 3/4 (Z[w]) implied by any correct coordinate rounding",
          "property-based testing (proptest): certificate checking with reference arithmetic; thorough tier adds coverage-guided fuzzing (libFuzzer through cargo-fuzz) of the same case type and oracle, bytes decoded structurally; thorough tier also runs the quick workload on a build with the code base's debug assertions enabled"),
- "C11": ("generated sparse matrices (incl. a conflict-rich family) x pivot type x condition x 1..16 threads x harness-owned schedule strategies installed through the verif-hooks schedule points; returned pivot set valid: distinct rows/cols, condition, triangular after the permutations, no panic",
+ "C11": ("generated sparse matrices (incl. a conflict-rich family) x pivot type x condition x 1..16 threads x harness-owned schedule strategies installed through the verif-hooks schedule points; returned pivot set valid: distinct rows/cols, condition, triangular after the permutations, no panic; a huge sparse family (up to 3400 x 8200) reaches the size-dependent code paths",
          "schedules are sampled (Free, Barrier, Priority, Delay), not enumerated; deadlock freedom only as absence of watchdog hits",
          "property-based testing (proptest) with schedule control through hooks: validity predicate on every returned pivot set"),
- "C12": ("generated triangular systems (explicit stored zeros, non-1 unit diagonals), partial-triangular matrices, block matrices, thread pools, repeated calls on one pool; A X = Y, X A = Y, S = D - C A^-1 B, F M B = S, F B = I, block sum, 1 thread == n threads",
+ "C12": ("generated triangular systems (explicit stored zeros, non-1 unit diagonals), partial-triangular matrices, block matrices, thread pools, repeated calls on one pool; A X = Y, X A = Y, S = D - C A^-1 B, F M B = S, F B = I, block sum, 1 thread == n threads; tree-shaped decompositions on up to 65 columns per block",
          "dense reference model in the harness; schedules sampled by pool size and call sequences",
          "property-based testing (proptest): reference model (dense) + determinism across thread counts; thorough tier also runs the quick workload on a build with the code base's debug assertions enabled"),
  "C13": ("generated operation histories on SpMat / SpVec / Mat / Trans over Z, Q, F3 with stored zeros and zero dimensions, shadowed by a dense Vec<Vec<_>> model compared after every step",
          "only operations valid in the model are generated (the property is about values of valid operations)",
          "property-based testing (proptest): stateful reference model; thorough tier adds coverage-guided fuzzing (libFuzzer through cargo-fuzz) of the same case type and oracle, bytes decoded structurally; thorough tier also runs the quick workload on a build with the code base's debug assertions enabled"),
- "C14": ("generated operation histories (+ - * / neg in all by-value/by-ref/assign forms, comparisons, ring axioms) on 26 scalar types, mirrored in num-bigint / num-rational / textbook Z[w], F_p; canonical form, == and Ord checked after every step",
+ "C14": ("generated operation histories (+ - * / neg in all by-value/by-ref/assign forms, comparisons, ring axioms) on 26 scalar types, mirrored in num-bigint / num-rational / textbook Z[w], F_p; canonical form, == and Ord checked after every step; values are also rebuilt through public constructors from non-canonical descriptions",
          "machine types: histories end where the exact result stops being representable; overflow panics of composite machine types are discards",
          "property-based testing (proptest): stateful reference model; thorough tier adds coverage-guided fuzzing (libFuzzer through cargo-fuzz) of the same case type and oracle, bytes decoded structurally"),
  "C15": ("generated operand pairs in 25 Euclidean types with structured shapes (divisor divides, planted common factor, exact ties, associates, zeros), magnitudes to 10^300: division with remainder, exact rounding, gcd/gcdx/lcm laws, units, normalisation",
@@ -57,13 +57,13 @@ CHECKS = {
  "C17": ("generated constructor + operation histories on BitSeq compared step by step with a Vec<bool> model, lengths biased to the 64-bit boundary; operations exceeding 64 must be rejected",
          "rejection = panic or Err; out-of-range indices are not generated",
          "property-based testing (proptest): stateful reference model; thorough tier adds coverage-guided fuzzing (libFuzzer through cargo-fuzz) of the same case type and oracle, bytes decoded structurally"),
- "C18": ("generated valid PD codes (table, braid closures, kinks, split unions, over-only components, renumbered/reordered) and braid words: components, signs (exists consistent orientation), writhe invariances, resolutions and circle counts, Seifert circles, braid closure counts, against the harness's own half-edge combinatorics",
+ "C18": ("generated valid PD codes (table, braid closures, kinks, split unions, over-only components, renumbered/reordered) and braid words: components, signs (exists consistent orientation), writhe invariances, resolutions and circle counts, Seifert circles, braid closure counts, against the harness's own half-edge combinatorics; every complete resolution is also reached by successive resolved_at calls in a generated order",
          "own combinatorics on half-edges; orientation of over-only components existentially quantified",
          "property-based testing (proptest): reference model (own PD combinatorics) + metamorphic relations"),
  "C19": ("built-in strongly invertible diagrams, mirrors, reorderings, symmetric kinks x (h,t) over F2 and F2[H] x reduced: library involutive homology == homology of the harness's own cone of 1+tau on its own cube; symmetric build == ordinary Kh; ssi laws",
          "new involutive diagrams by generated equivariant Reidemeister I moves (on-axis kinks, off-axis kink pairs), reordering and mirror of the built-in table; H-torsion exponents over F2[H] compared through truncations F2[H]/(H^k)",
          "property-based testing (proptest): reference model (own mapping cone) + metamorphic relations"),
- "C20": ("generated argument vectors for the ykh binary (built from /repo) run as a child process: parsed table == direct library call with the same ring and parameters; unsupported / malformed input => non-zero exit, message, no table",
+ "C20": ("generated argument vectors for the ykh binary (built from /repo) run as a child process: parsed table == direct library call with the same ring and parameters; unsupported / malformed input => non-zero exit, message, no table; the printed (i,j) table must also be a regrouping of the ungraded homology",
          "table grammar written from the README and format.rs; 120 s watchdog per invocation",
          "property-based testing (proptest): differential (CLI text vs direct library call) + error contract"),
 }
